@@ -271,7 +271,7 @@ func printDoc(d *ast.QueryDocument) string {
 	return string(bytes.Join(bytes.Fields(b.Bytes()), []byte(" ")))
 }
 
-var DecorKinds = []string{"alias", "aliasSib", "aliasParent", "aliasId", "idAliased", "typename", "fragT", "fragN", "fragSkip", "fragIncVarFalse", "fragAbs", "fragAbsTypename", "absTypenameFrag", "id",
+var DecorKinds = []string{"alias", "aliasSib", "aliasParent", "aliasNode", "aliasId", "idAliased", "typename", "fragT", "fragN", "fragSkip", "fragIncVarFalse", "fragAbs", "fragAbsTypename", "absTypenameFrag", "id",
 	"incLit", "skipLitFalse", "skipVar", "incVar", "argVar", "argVarNamedId", "argVarDefault", "argVarNull", "argVarLeaf0", "argVarLeaf1", "argVarLeaf2", "varTwice", "dup", "dupFirst", "sameKeyTwice", "splitKey", "splitKeyFrag", "dupSwapLeaf", "dupDropLeaf", "named", "namedTwice", "opName", "rootTypename", "rootTypenameAliased", "rootFragSkipVar"}
 
 // Decorate returns all single-decoration variants of q.
@@ -330,6 +330,13 @@ func Decorate(s *ast.Schema, q string) []Case {
 					ok = false
 				} else {
 					f.Alias = parent.Name
+				}
+			case "aliasNode":
+				// the response key of the gateway's own lookup wrapper
+				if f.Name == "node" {
+					ok = false
+				} else {
+					f.Alias = "node"
 				}
 			case "aliasId":
 				if f.Name == "id" || ft == nil || ft.Kind != ast.Scalar {
@@ -794,6 +801,12 @@ func HandOps(f *Fed) []Case {
 		{Q: "{ us { __typename ... on U { ... on N4 { label } } } }", Vars: map[string]interface{}{}, Dec: "hand:abstract-fragment-next-to-typename"},
 		{Q: "{ things { t: __typename ... on I { a } } }", Vars: map[string]interface{}{}, Dec: "hand:abstract-fragment-next-to-typename"},
 		{Q: "query { things { ...TN ... on I { a } } } fragment TN on I { __typename }", Vars: map[string]interface{}{}, Dec: "hand:abstract-fragment-next-to-typename"},
+		// a response key called node below a child step (the gateway wraps child steps in its own node lookup)
+		{Q: "{ n2 { owner { node: n2s { title } } } }", Vars: map[string]interface{}{}, Dec: "hand:key-named-node-below-child-step"},
+		{Q: "{ edges { cursor node { name n2s { title } } } }", Vars: map[string]interface{}{}, Dec: "hand:key-named-node-below-child-step"},
+		// a subscription operation sent like a query (POST): answered like any operation
+		{Q: "subscription { tick }", Vars: map[string]interface{}{}, Dec: "hand:subscription-by-post"},
+		{Q: "subscription { n1Changed { name phone } }", Vars: map[string]interface{}{}, Dec: "hand:subscription-by-post"},
 		// a literal that reads like the name of a variable used elsewhere
 		{Q: "query ($name: Int) { echo(x: $name) n1ByName: n1s { calc(x: 1) } }", Vars: map[string]interface{}{"name": 5}, Dec: "hand:literal-like-variable"},
 	}
